@@ -136,6 +136,7 @@ def summary(out_dir):
     for f in sorted(os.listdir(out_dir)):
         if f.endswith('.jsonl'):
             recs += [json.loads(l) for l in open(os.path.join(out_dir, f)) if l.strip()]
+    recs = list({r['id']: r for r in recs}.values())
     by = {}
     for r in recs:
         by.setdefault(r['verdict'], []).append(r)
@@ -174,8 +175,9 @@ def main():
     os.makedirs(out_dir, exist_ok=True)
     log = os.path.join(out_dir, 'worker%d.jsonl' % i)
     done = set()
-    if os.path.exists(log):
-        done = {json.loads(l)['id'] for l in open(log) if l.strip()}
+    for f in os.listdir(out_dir):
+        if f.endswith('.jsonl'):
+            done |= {json.loads(l)['id'] for l in open(os.path.join(out_dir, f)) if l.strip()}
     copy = V
     for m in mine:
         if m['id'] in done:
